@@ -192,6 +192,189 @@ def inproc_case(args):
         lt_base.datetime = orig_dt
 
 
+def group_case(args):
+    """Many tasks share one storage: run them all, then reload each through a fresh Lab.
+    A load must never return a result that was stored for a different task."""
+    storage_kind, items, clock = args
+    silence_labtech()
+    out = []
+    tmp = None
+    orig_dt = lt_base.datetime
+    lt_base.datetime = FakeDatetime
+    if storage_kind == 'mem':
+        storage = MemStorage()
+    else:
+        tmp = tempfile.mkdtemp(prefix='c06g_')
+        storage = LocalStorage(tmp)
+    try:
+        # tasks that compare equal (1 == True == 1.0, 'RED' == StrEnumLike.RED) are one task to a
+        # single run_tasks call: keep only the first of each equality class in a group
+        uniq, seen_eq = [], set()
+        for it in items:
+            t = TYPES[it[0]](p=build(it[1], types=TYPES))
+            if t in seen_eq:
+                continue
+            seen_eq.add(t)
+            uniq.append(it)
+        items = uniq
+
+        def mk_all():
+            return [TYPES[tn](p=build(tree, types=TYPES)) for tn, tree, _ in items]
+        start, dur = CLOCKS[clock]
+        t1 = mk_all()
+        FakeDatetime.script = [start, start + dur] * (4 * len(t1) + 8)
+        WORLD.reset(epoch=1)
+        r1 = labtech.Lab(storage=storage, runner_backend='serial', notebook=False).run_tasks(t1, disable_progress=True, disable_top=True)
+        executed1 = {ev[1][2] for ev in WORLD.log if ev[0] == 'start'}
+        t2 = mk_all()
+        WORLD.reset(epoch=2)
+        FakeDatetime.script = [datetime(2000, 1, 1), datetime(2000, 1, 1, 0, 0, 9)] * (4 * len(t1) + 8)
+        lab2 = labtech.Lab(storage=storage, runner_backend='serial', notebook=False)
+        r2 = lab2.run_tasks(t2, disable_progress=True, disable_top=True)
+        executed2 = {ev[1][2] for ev in WORLD.log if ev[0] == 'start'}
+        want_meta = ResultMeta(start=start, duration=dur)
+        for a, b, it in zip(t1, t2, items):
+            d = f'[{storage_kind}, shared storage] {it[0]}({describe(it[1]) if it[0] != "Shape" else it[1]})'
+            if isinstance(a._lt.cache, labtech.cache.NullCache):
+                continue
+            if a.cache_key not in executed1:
+                # an equal task (1 == True) took its place in the first run, or its key collided: it must then run now
+                if b not in r2 or r2[b][3] != canon(b):
+                    out.append(('foreign-result', f'{d}: never executed under its own key, yet got {str(r2.get(b))[:160]}', 1))
+                continue
+            if b.cache_key in executed2:
+                out.append(('re-executed', f'{d}: executed again although cached', 1))
+            if b not in r2 or r2[b] != r1.get(a):
+                out.append(('value-differs', f'{d}: loaded {str(r2.get(b))[:120]} stored {str(r1.get(a))[:120]}', 1))
+            elif r2[b][3] != canon(b):
+                out.append(('foreign-result', f'{d}: loaded a result stored for {r2[b][3]}', 1))
+            if b.result_meta != want_meta:
+                out.append(('meta-differs', f'{d}: loaded result_meta {b.result_meta} recorded {want_meta}', 1))
+        return out, len(items)
+    finally:
+        lt_base.datetime = orig_dt
+        if isinstance(storage, MemStorage):
+            storage.release()
+        if tmp:
+            shutil.rmtree(tmp, ignore_errors=True)
+
+
+def two_storage_case(args):
+    """The same task cached in two storages with different recorded metadata; each Lab must
+    return what *its* storage holds (in-process state keyed by task only would mix them up)."""
+    items = args
+    silence_labtech()
+    out = []
+    orig_dt = lt_base.datetime
+    lt_base.datetime = FakeDatetime
+    sa = sb = None
+    try:
+        for tn, tree, clock in items:
+            for st in (sa, sb):
+                if st is not None:
+                    st.release()
+            sa, sb = MemStorage(), MemStorage()
+            mk = (lambda: TYPES[tn](p=build(tree, types=TYPES)))
+            d = f'{tn}({describe(tree)}) in two storages'
+            metas = []
+            for st, c, ep in ((sa, clock, 1), (sb, (clock + 1) % len(CLOCKS), 2)):
+                start, dur = CLOCKS[c]
+                FakeDatetime.script = [start, start + dur] * 8
+                WORLD.reset(epoch=ep)
+                labtech.Lab(storage=st, runner_backend='serial', notebook=False).run_tasks([mk()], disable_progress=True, disable_top=True)
+                metas.append(ResultMeta(start=start, duration=dur))
+            for order in ((0, 1), (1, 0), (0, 1)):
+                for i in order:
+                    st = (sa, sb)[i]
+                    t = mk()
+                    WORLD.reset(epoch=9)
+                    FakeDatetime.script = [datetime(2001, 1, 1)] * 16
+                    lab = labtech.Lab(storage=st, runner_backend='serial', notebook=False)
+                    ct = [x for x in lab.cached_tasks([type(t)]) if x == t]
+                    r = lab.run_tasks([t], disable_progress=True, disable_top=True)
+                    if any(ev[0] == 'start' for ev in WORLD.log):
+                        out.append(('re-executed', f'{d}: executed again', 1))
+                    if t.result_meta != metas[i]:
+                        out.append(('meta-from-other-storage', f'{d}: storage {"AB"[i]} returned result_meta {t.result_meta}, it recorded {metas[i]}', 1))
+                    if ct and ct[0].result_meta != metas[i]:
+                        out.append(('meta-from-other-storage', f'{d}: cached_tasks on storage {"AB"[i]} gives result_meta {ct[0].result_meta}, recorded {metas[i]}', 1))
+                    if t not in r or r[t][5] != i + 1:
+                        out.append(('value-from-other-storage', f'{d}: storage {"AB"[i]} returned {str(r.get(t))[:100]}', 1))
+        return out, len(items)
+    finally:
+        lt_base.datetime = orig_dt
+        for st in (sa, sb):
+            if st is not None:
+                st.release()
+
+
+def reuse_dump(storage_dir: str, backend: str, which: int):
+    """Fresh interpreter: ONE Lab object used for run -> is_cached -> cached_tasks -> run(bust) -> run."""
+    silence_labtech()
+    import json as _json
+    lab = labtech.Lab(storage=storage_dir, runner_backend=backend, max_workers=2, notebook=False)
+    wf = os.environ['VERIF_WORLD_FILE']
+    out = []
+
+    def started():
+        return [_json.loads(l)[3][2] for l in open(wf) if l.strip() and _json.loads(l)[2] == 'start']
+    phases = [('first', False), ('again', False), ('bust', True), ('after-bust', False)]
+    for name, bust in phases:
+        open(wf, 'w').close()
+        tasks = task_sets(which)
+        pre = [lab.is_cached(t) for t in tasks]
+        listed = {type(t) for t in tasks}
+        ct = {x.cache_key: x.result_meta for ty in listed for x in lab.cached_tasks([ty])}
+        res = lab.run_tasks(tasks, bust_cache=bust, disable_progress=True, disable_top=True)
+        st = started()
+        out.append({'phase': name, 'rows': [
+            {'key': t.cache_key, 'canon': repr(canon(t)), 'cached_before': p, 'executed': t.cache_key in st, 'value': repr(res.get(t, '<missing>')),
+             'meta': None if t.result_meta is None else [t.result_meta.start.isoformat(), t.result_meta.duration.total_seconds()],
+             'listed_meta': None if ct.get(t.cache_key) is None else [ct[t.cache_key].start.isoformat(), ct[t.cache_key].duration.total_seconds()]}
+            for t, p in zip(tasks, pre)]})
+    print(_json.dumps(out))
+
+
+def reuse_case(args):
+    backend, which, seed = args
+    tmp = tempfile.mkdtemp(prefix='c06r_')
+    out = []
+    try:
+        wf = os.path.join(tmp, 'world.log')
+        open(wf, 'w').close()
+        rc, so, se = run_isolated([sys.executable, '-m', 'verif_lt.props.c06', '--reuse', os.path.join(tmp, 'st'), backend, str(which)],
+                                  env=py_env(seed, VERIF_WORLD_FILE=wf, VERIF_EPOCH=1), timeout=240)
+        if rc != 0:
+            return [(f'run-failed:{backend}', f'reused-Lab history with backend {backend} exited {rc}: {se[-600:]}', 1)], 0
+        phases = {p['phase']: p['rows'] for p in json.loads(so.strip().splitlines()[-1])}
+        n = 0
+        for i, row in enumerate(phases['first']):
+            if "'NoCacheT'" in row['canon']:
+                continue
+            n += 1
+            d = f'{row["canon"]} backend={backend}, one Lab object reused'
+            again, bust, after = phases['again'][i], phases['bust'][i], phases['after-bust'][i]
+            if not again['cached_before']:
+                out.append(('not-cached-after-run', f'{d}: is_cached false after the first run', 1))
+            if again['executed']:
+                out.append(('re-executed', f'{d}: second run_tasks on the same Lab executed run() again', 1))
+            if again['value'] != row['value'] or again['meta'] != row['meta']:
+                out.append(('value-differs', f'{d}: second run returned {again["value"][:100]} / {again["meta"]}, first {row["value"][:100]} / {row["meta"]}', 1))
+            if again['listed_meta'] != row['meta']:
+                out.append(('meta-differs', f'{d}: cached_tasks lists result_meta {again["listed_meta"]}, recorded {row["meta"]}', 1))
+            if not bust['executed']:
+                out.append(('bust-not-executed', f'{d}: bust_cache run did not execute', 1))
+            if after['executed']:
+                out.append(('re-executed', f'{d}: executed again after the bust_cache run', 1))
+            if after['value'] != bust['value'] or after['meta'] != bust['meta']:
+                out.append(('stale-after-bust', f'{d}: after bust_cache the cache hit returns {after["value"][:80]} / {after["meta"]}, the re-execution gave {bust["value"][:80]} / {bust["meta"]}', 1))
+            if after['listed_meta'] != bust['meta']:
+                out.append(('stale-after-bust', f'{d}: cached_tasks lists result_meta {after["listed_meta"]} after bust_cache, the re-execution recorded {bust["meta"]}', 1))
+        return out, n
+    finally:
+        shutil.rmtree(tmp, ignore_errors=True)
+
+
 def _all_tasks(t):
     from ..paramtree import find_tasks
     out = [t]
@@ -205,6 +388,12 @@ def _work(item):
     kind, payload = item
     if kind == 'cross':
         return ('cross',) + cross_case(payload)
+    if kind == 'reuse':
+        return ('cross',) + reuse_case(payload)
+    if kind == 'group':
+        return ('inproc',) + group_case(payload)
+    if kind == 'two':
+        return ('inproc',) + two_storage_case(payload)
     return ('inproc',) + inproc_case(payload)
 
 
@@ -238,7 +427,13 @@ def run(tier: str, seed: int) -> Result:
     fs_items = items[::fs_every]
     work += [('inproc', ('local', fs_items[j:j + 60])) for j in range(0, len(fs_items), 60)]
     work += [('inproc', ('fsspec', fs_items[j:j + 60])) for j in range(0, len(fs_items), 60)]
-    work = [('cross', c) for c in cross] + work
+    grp = [it for it in items if it[0] != 'Shape']
+    work += [('group', ('mem', grp[j:j + 60], (j // 60) % len(CLOCKS))) for j in range(0, len(grp), 60)]
+    work += [('group', ('local', grp[j:j + 60], 1)) for j in range(0, len(grp), 60 * fs_every)]
+    two = grp[::7]
+    work += [('two', two[j:j + 50]) for j in range(0, len(two), 50)]
+    reuse = [(b, 0, 3) for b in backends] if tier == 'quick' else [(b, w, 2 + w) for b in backends for w in (0, 1, 2)]
+    work = [('cross', c) for c in cross] + [('reuse', r) for r in reuse] + work
     viols = []
     n_in = n_cross = 0
     for kind, res, n in pmap(_work, work):
@@ -254,7 +449,8 @@ def run(tier: str, seed: int) -> Result:
         'rule': ('in-process: every (outer type, parameter tree, clock) item run -> is_cached -> run with fresh equal task objects and a fresh Lab; '
                  'result shapes scalar/None/nested/enum/64 KiB/1.5 MiB; clock alphabet of 5 (start, duration) pairs through a fake datetime; in-memory + LocalStorage + fsspec-local. '
                  f'cross-process: {len(cross)} (first backend, second backend, task set, seed1, seed2) histories over serial/fork/spawn in fresh interpreters; '
-                 'distinct_nontrivial = distinct items + histories'),
+                 'plus: groups of 60 tasks sharing one storage (a load must return the entry of that very task), the same task in two storages with different metadata, and one Lab object reused '
+                 'for run -> run -> run(bust_cache) -> run with is_cached/cached_tasks in between on real serial/fork/spawn; distinct_nontrivial = distinct items + histories'),
         'samples': [repr(items[0]), repr(items[len(items) // 2]), repr(cross[0]), repr(cross[-1])],
         'in_process_histories': n_in,
         'cross_process_task_checks': n_cross,
@@ -277,3 +473,5 @@ def replay(payload) -> int:
 if __name__ == '__main__':
     if len(sys.argv) >= 5 and sys.argv[1] == '--dump':
         dump_run(sys.argv[2], sys.argv[3], int(sys.argv[4]))
+    elif len(sys.argv) >= 5 and sys.argv[1] == '--reuse':
+        reuse_dump(sys.argv[2], sys.argv[3], int(sys.argv[4]))
